@@ -332,7 +332,9 @@ where
             assert_eq!(chain.pop(), Some(key));
         });
         
+        let mut computed = false;
         let res = self.storage.cache.get_or_compute(key, || {
+            computed = true;
             match self.resolve(key).and_then(|p| T::from_primitive(p, self)) {
                 Ok(obj) => Ok(AnySync::new(Shared::new(obj))),
                 Err(e) => {
@@ -352,6 +354,9 @@ where
                     }
                 }
             }
+            // this very call tried to load the object as T and failed: loading it again cannot help (and, nested, it
+            // would double the work at every level of a failing chain of objects)
+            Err(e) if computed => Err(PdfError::Shared { source: e.clone()}),
             Err(e) => {
                 // the key carries no type: the cached error may stem from a load as another type
                 match self.resolve(key).and_then(|p| T::from_primitive(p, self)) {
